@@ -103,6 +103,11 @@ func runSymCase(c *Ctx, regs []symReg, input []rune, rereads int) {
 		c.fail(Failure{Kind: "oracle", Op: op, Impl: impl, Note: oracle})
 		return
 	}
+	for _, r := range regs {
+		if r.typ < 0 {
+			return // type codes are natural numbers in the model: negative ones are judged by the direct oracle only
+		}
+	}
 	c.model(op, impl, "model")
 }
 
@@ -162,6 +167,12 @@ func propC16(c *Ctx) {
 		for _, in := range []string{"<=x", "<=>", "<<=", "=<=", "<"} {
 			runSymCase(c, []symReg{{[]rune("<"), tokenizers.Symbol}, {[]rune("<="), big}, {[]rune("<=>"), tokenizers.Keyword}}, []rune(in), 1)
 			runSymCase(c, []symReg{{[]rune("<=>"), big}, {[]rune("<="), tokenizers.Symbol}}, []rune(in), 1)
+		}
+	}
+	for _, neg := range []int{-1, -7, -1 << 40} {
+		for _, in := range []string{"@x", "@@", "@", "@@@", "x@"} {
+			runSymCase(c, []symReg{{[]rune("@"), neg}, {[]rune("@@"), tokenizers.Keyword}}, []rune(in), 1)
+			runSymCase(c, []symReg{{[]rune("@@"), tokenizers.Keyword}, {[]rune("@"), neg}, {[]rune("@@@"), neg - 1}}, []rune(in), 1)
 		}
 	}
 	wide := []rune{'<', '=', '>', '!', 0x4e16, 0xe9, 'a'}
